@@ -96,10 +96,8 @@ func (frame *Frame) prepareAvcHeader(sps, pps []byte) {
 		}
 	}
 
-	// 7-9, ignore, @see: ngx_rtmp_hls_video
-	if nalUnitType >= h264.NalSps && nalUnitType <= h264.NalAud {
-		return
-	}
+	// 7-9 (SPS, PPS, AUD) are written like every other NAL unit: the frame is
+	// handed to the writer in any case, so it needs its AnnexB start code too.
 
 	// step 2:
 	// output the "real" sample, in buf.
